@@ -545,7 +545,9 @@ func (e *Evaluator) evalFor(f *parser.ForStmt) (value, error) {
 	}
 	for r.next(e.scope, loopVarName) {
 		verifEv("Iter", "for")
+		e.pushScope() // the body is a block: its declarations end with each iteration
 		val, err := e.eval(f.Block)
+		e.popScope()
 		if err != nil {
 			return nil, err
 		}
